@@ -595,9 +595,16 @@ def rule_R8(ctx):
     pats = [(0x41,), (0x61, 0x62), (0xc3, 0xa9), (0xc3,), (0x41, 0xc3, 0xa9),
             (0xc1, 0x81), (0xe0, 0x81, 0x81), (0xc1, 0xa1, 0x41)]
     # the flag bits ratom_match looks at
-    flagbits = sorted({cval(n["r"]) for n in f.walk() if n["k"] == "bin" and n["op"] == "&" and
+    # the flag bits ratom_match and the helpers it calls look at
+    callees = {f.name} | {c_.get("fn") for c_ in f.calls() if c_.get("fn")}
+    flagbits = sorted({cval(n["r"]) for g_ in prog.funcs.values()
+                       if g_.file == "regex.c" and g_.name in callees
+                       for n in g_.walk() if n["k"] == "bin" and n["op"] == "&" and
                        strip_casts(n["l"])["k"] == "member" and strip_casts(n["l"])["field"] == "flg"
                        and cval(n["r"]) is not None})
+    from .lmt import matcher_flags
+    mf = matcher_flags(prog)
+    prevbit = mf["map"].get(mf["PREV"]) if mf["PREV"] is not None else None
     if len(flagbits) < 2:
         raise AnalysisBroken("ratom_match: flag tests not found")
     flagsets = [0] + flagbits
@@ -613,8 +620,16 @@ def rule_R8(ctx):
                     [(BRK, b, flg) for b in brks for flg in flagsets]
                 for ra, pat, flg in cases:
                     n_eval += 1
-                    sp = Ptr(subj)
-                    rs = {"s": Ptr(subj, start, sp.log), "o": sp, "flg": flg, "pc": 0, "dep": 0}
+                    if prevbit is not None and flg & prevbit:
+                        # the flag promises that o[-1] is readable: o is an interior pointer
+                        buf = (0x61,) + subj
+                        sp = Ptr(buf, 1)
+                        rs = {"s": Ptr(buf, 1 + start, sp.log), "o": sp, "flg": flg, "pc": 0, "dep": 0}
+                        L_ = L + 1
+                    else:
+                        sp = Ptr(subj)
+                        rs = {"s": Ptr(subj, start, sp.log), "o": sp, "flg": flg, "pc": 0, "dep": 0}
+                        L_ = L
                     atom = {"ra": ra, "s": Ptr(tuple(pat) + (0,)) if pat else None}
                     try:
                         Interp(prog).call(f, [atom, rs])
@@ -625,7 +640,8 @@ def rule_R8(ctx):
                     except Unsupported as e:
                         raise AnalysisBroken("ratom_match not evaluable: %s" % e)
                     cur = rs["s"]
-                    if not isinstance(cur, Ptr) or cur.off > L or cur.off < start:
+                    lo_ = start + (1 if L_ != L else 0)
+                    if not isinstance(cur, Ptr) or cur.off > L_ or cur.off < lo_:
                         if bad is None:
                             bad = ("leaves the subject pointer at %s" % (cur.off if isinstance(cur, Ptr) else cur),
                                    ra, pat, subj, start, "")
